@@ -72,6 +72,8 @@ def conc(v, asg=None):
         return ev(v, asg)
     if k == 'adt':
         return (v[1], v[2], tuple(conc(x, asg) for x in v[3]))
+    if k == 'arr':
+        return ('arr', tuple(conc(x, asg) for x in v[1]))
     if k == 'ref':
         return ('ref', v[1], v[2])
     if k == 'op':
@@ -91,6 +93,9 @@ def value_atoms(v, acc=None):
         atoms_in(v, acc)
     elif k == 'adt':
         for x in v[3]:
+            value_atoms(x, acc)
+    elif k == 'arr':
+        for x in v[1]:
             value_atoms(x, acc)
     elif k == 'se':
         atoms_in(v[2], acc)
